@@ -49,7 +49,14 @@ def h_resubscribe(a, inst):
 
 
 # ------------------------------------------------------------------ the second subscription sees *different* data
-@harness(instances=_inst, timeout=(90, 900), d=I(0, 5), bt=I(1, 2), **pipe.params(gmax=1))
+def _vinst(tier):
+    out = pipe.instances(tier, 2, 3, nmin=1, lean=True, tagsel=lambda t: "multi" not in t and "nocold" not in t)
+    if tier == "quick":  # periodic timers x three subscriptions: thorough tier only (average stays: its state leak needs differing data)
+        out = [i for i in out if i["op"] not in PERIODIC or i["op"] == "average"]
+    return out
+
+
+@harness(instances=_vinst, timeout=(90, 900), d=I(0, 5), bt=I(1, 2), **pipe.params(gmax=1))
 def h_varying(a, inst):
     """the same observable object over a deferred source that yields timeline A (symbolic) to the first subscription and a shorter
     timeline B to the second; the first subscription runs to its end (completion or error) or is disposed after d ticks.  The
